@@ -54,10 +54,16 @@ def explore(name, make_engine, scenario, claims, confirm=None, witness=None, max
         for t in tags or []:
             out['tags'][t] = out['tags'].get(t, 0) + 1
         verdicts = []
-        for cname, claim in claims(eng, val):
+        for item in claims(eng, val):
+            cname, claim = item[0], item[1]
             rr, mm = eng.prove(claim)
             verdicts.append((cname, rr))
             if rr == 'sat':
+                if len(item) > 2 and item[2] is not None:
+                    # ask for a robust counterexample (a violation with margin) to replay; fall back to the thin one
+                    r2, m2 = eng.prove(item[2])
+                    if r2 == 'sat':
+                        mm = m2
                 info = confirm(eng, mm, val, cname) if confirm else None
                 if info:
                     out['violations'].append(dict(claim=cname, **info))
